@@ -535,7 +535,8 @@ def pasha_distances(inst, idx_before):
             order = list(inst.epoch_to_trials[epoch])
             if len(order) > 1:
                 orders.append((epoch, [int(t) for t in order]))
-                for c1, c2 in itertools.combinations(order, 2):
+                for pair in itertools.combinations(order, 2):
+                    c1, c2 = sorted(pair)  # the pair is identified independently of the iteration order
                     if (c1, c2) in seen:
                         continue
                     seen.add((c1, c2))
